@@ -343,9 +343,9 @@ class Frame(Widget, WidgetContainerMixin, typing.Generic[BodyWidget, HeaderWidge
     ) -> tuple[BodyWidget | HeaderWidget | FooterWidget, None]:
         if key == "body":
             return (self._body, None)
-        if key == "header" and self._header:
+        if key == "header" and self._header is not None:
             return (self._header, None)
-        if key == "footer" and self._footer:
+        if key == "footer" and self._footer is not None:
             return (self._footer, None)
         raise KeyError(f"Frame.contents has no key: {key!r}")
 
